@@ -487,6 +487,23 @@ func (g *gen) dependent(p *Plan) {
 		r.Ops = []ROp{{Op: "drain", Sizes: sizes}}
 	}
 	r.Ops = append(r.Ops, ROp{Op: "read", N: 16})
+	if g.r.Chance(15, 100) {
+		// reuse of the Reader: a second dependent-block frame after Reset
+		// (the window and its buffers must not leak from one stream to the next)
+		n2 := g.r.PickInt(70000, 131072, g.r.Range(1, 300000))
+		in2 := g.input(n2)
+		in2.Class = []string{"repeat", "mixed", "text"}[g.r.Pick(50, 30, 20)]
+		p.Inputs = append(p.Inputs, in2)
+		e2 := &EncPlan{BS: 4, Dependent: true, BSum: g.r.Bool(), CSum: g.r.Bool()}
+		e2.Blocks = g.encBlocks(n2, 64<<10)
+		r.Srcs = append(r.Srcs, Source{Stored: Stored{Base: "refenc", Enc: e2, In: 1}, Frag: g.fragFor(n2), EOFWithData: g.r.Chance(1, 4)})
+		r.Ops = append(r.Ops, ROp{Op: "reset", Src: 1})
+		if g.r.Bool() {
+			r.Ops = append(r.Ops, ROp{Op: "writeto"})
+		} else {
+			r.Ops = append(r.Ops, ROp{Op: "drain", Sizes: []int{g.r.PickInt(1000, 65535, 65536, 100000)}})
+		}
+	}
 	p.Readers = []RScript{r}
 	p.Phases = [][]string{{"R0"}}
 	p.Procs = 4
